@@ -45,6 +45,7 @@ type FuncContract struct {
 	Params     []string // optional explicit parameter names (extern/iface)
 	Where      string
 	Lets       [][2]string // name, expr: ghost abbreviations usable in clauses (evaluated at entry)
+	CutLoops   bool        // after a loop only the precondition and the loop invariants are known (path history is dropped)
 	NoSafety   string      // reason: safety (no-panic) obligations are not generated for this function
 }
 
@@ -73,7 +74,7 @@ type ContractDB struct {
 }
 
 var clauseKW = map[string]bool{"props": true, "requires": true, "ensures": true, "modifies": true, "loop": true, "emits": true,
-	"pure": true, "noeffect": true, "trusted": true, "params": true, "let": true, "internal": true, "nosafety": true}
+	"pure": true, "noeffect": true, "trusted": true, "params": true, "let": true, "internal": true, "nosafety": true, "cutloops": true}
 
 var topKW = map[string]bool{"func": true, "iface": true, "extern": true, "pred": true, "spec": true, "axiom": true, "lemma": true, "event": true}
 
@@ -236,6 +237,8 @@ func (db *ContractDB) parseFile(file, pkgPath string) error {
 				switch cw {
 				case "props":
 					fc.Props = strings.Fields(crest)
+				case "cutloops":
+					fc.CutLoops = true
 				case "nosafety":
 					fc.NoSafety = crest
 					if fc.NoSafety == "" {
